@@ -7,6 +7,8 @@
 //!   `tok <hex>`                       C10: shape oracle + model comparison on one input
 //!   `lit <hex> <expectation>`         C11: `num:<n>` | `str:<hex>` | `reject`
 //!   `pos <hex> <o1,o2,..>`            C12: tokens were placed at these byte offsets
+// catch-all arms keep the harness compiling when the crate adds a variant to one of its error enums (the outcome is then `unknown:<Debug>`)
+#![allow(unreachable_patterns)]
 use trion::text::parse::Parser;
 use trion::text::token::{Number, Token, TokenErrorKind, TokenValue, Tokenizer};
 
@@ -78,6 +80,7 @@ fn kind_name(k: &TokenErrorKind) -> String
 		TokenErrorKind::BadCharacter => "badcharacter".to_owned(),
 		TokenErrorKind::BadString => "badstring".to_owned(),
 		TokenErrorKind::Unexpected(c) => format!("unexpected:{}", *c as u32),
+		k => format!("unknown:{k:?}"),
 	}
 }
 
